@@ -1,5 +1,6 @@
 import HcProofs.Lemmas.Db
 import HcModel.Generated.SetTrace
+import HcModel.Generated.SetLock
 /-
   C19 — a crash during a storage write never corrupts the stored value.
   Property theorems only; helper lemmas live in HcProofs/Lemmas/{Fs,Crash,Storage,Db}.lean.
@@ -187,5 +188,14 @@ example : lookup (apply [([107], [9, 9]), ([107, 46, 116, 109, 112], [7, 7, 7, 7
 /-- without the truncation of the sibling the checker says no -/
 example : checkTrace [107] [1] [.create [107, 46, 116, 109, 112], .write [107, 46, 116, 109, 112] 0 [1], .close,
     .rename [107, 46, 116, 109, 112] [107]] = false := by decide
+
+/-- What the recorded system-call trace and the crash walks show, they show for the code that was compiled for this
+    platform. The storage is the same code on every platform the library is built for: no file of package util carries a
+    build constraint (Generated/SetLock.lean, regenerated from the tree), and `Set` itself commits with the rename — it is
+    not handed to a helper that a platform could replace (seeded change C19-r5m2 did that for `!unix`, i.e. js/wasm: remove,
+    then rename). -/
+theorem storage_is_one_source_on_every_platform :
+    Hc.Generated.utilConstrainedFiles = [] ∧ Hc.Generated.setPath.contains "rename" = true ∧
+    Hc.Generated.setPath.getLast? = some "remove" := by decide
 
 end Hc.Props.C19
